@@ -24,20 +24,38 @@ type c12schema map[string]struct {
 	tags   []string
 }
 
-type c12mapper struct{ s c12schema }
+type c12mapper struct {
+	s c12schema
+	// the mapper serves its own stored maps (as a real schema cache does): RewriteFields must not edit them
+	dims map[string]map[string]struct{}
+}
 
-func (m c12mapper) FieldDimensions(mm *Measurement) (map[string]DataType, map[string]struct{}, error) {
-	f := map[string]DataType{}
-	d := map[string]struct{}{}
-	if e, ok := m.s[mm.Name]; ok {
-		for k, v := range e.fields {
-			f[k] = v
-		}
+func newC12mapper(s c12schema) c12mapper {
+	m := c12mapper{s: s, dims: map[string]map[string]struct{}{}}
+	for name, e := range s {
+		d := map[string]struct{}{}
 		for _, t := range e.tags {
 			d[t] = struct{}{}
 		}
+		m.dims[name] = d
 	}
-	return f, d, nil
+	return m
+}
+
+func (m c12mapper) FieldDimensions(mm *Measurement) (map[string]DataType, map[string]struct{}, error) {
+	if e, ok := m.s[mm.Name]; ok {
+		return e.fields, m.dims[mm.Name], nil
+	}
+	return map[string]DataType{}, map[string]struct{}{}, nil
+}
+
+func (m c12mapper) intact() bool {
+	for name, e := range m.s {
+		if len(m.dims[name]) != len(e.tags) {
+			return false
+		}
+	}
+	return true
 }
 
 func (m c12mapper) MapType(mm *Measurement, field string) DataType {
@@ -57,7 +75,7 @@ func (m c12mapper) MapType(mm *Measurement, field string) DataType {
 var c12rank = map[DataType]int{Float: 9, Integer: 8, Unsigned: 7, String: 6, Boolean: 5, Time: 4, Duration: 3, Tag: 2, AnyField: 1, Unknown: 0}
 
 func TestZZBoundedC12(t *testing.T) {
-	fmt.Println("BOUNDED-BOUND: 4 schemas x 15 statements x 25 repetitions; oracle: sorted matching columns with the highest-precedence type, tags out of calls and out of grouped fields, identical text on every repetition")
+	fmt.Println("BOUNDED-BOUND: 4 schemas x 17 statements x 25 repetitions; oracle: sorted matching columns with the highest-precedence type, tags out of calls and out of grouped fields, identical text on every repetition")
 	type ms = struct {
 		fields map[string]DataType
 		tags   []string
@@ -75,6 +93,7 @@ func TestZZBoundedC12(t *testing.T) {
 		"SELECT v, w FROM %s", "SELECT * FROM (SELECT v, w FROM %s)",
 		"SELECT cumulative_sum(derivative(mean(*))) FROM %s GROUP BY time(1m)", "SELECT derivative(mean(/v|w/)) FROM %s GROUP BY time(1m)",
 		"SELECT mean(v) FROM (SELECT host, v FROM %s GROUP BY host, region) GROUP BY *",
+		"SELECT /^(w|host|v|w)$/ FROM %s", "SELECT * FROM (SELECT v, nosuch FROM %s)",
 	}
 	total, ok := 0, 0
 	fails := map[string]int{}
@@ -105,6 +124,11 @@ func TestZZBoundedC12(t *testing.T) {
 				tagSet[tg] = true
 			}
 		}
+		mapper := newC12mapper(sc)
+		fieldCount := map[string]int{}
+		for n, e := range sc {
+			fieldCount[n] = len(e.fields)
+		}
 		for qi, q := range stmts {
 			text := fmt.Sprintf(q, from)
 			st, err := ParseStatement(text)
@@ -115,12 +139,21 @@ func TestZZBoundedC12(t *testing.T) {
 			var outs []string
 			for rep := 0; rep < 25; rep++ {
 				total++
-				r, err := st.(*SelectStatement).RewriteFields(c12mapper{sc})
+				r, err := st.(*SelectStatement).RewriteFields(mapper)
 				if err != nil {
 					outs = append(outs, "error: "+err.Error())
 					continue
 				}
 				outs = append(outs, r.String())
+			}
+			for n, e := range sc {
+				if len(e.fields) != fieldCount[n] {
+					fail("schema-mutated", fmt.Sprintf("schema %d: %q changed the field map of %s", si, text, n))
+				}
+			}
+			if !mapper.intact() {
+				fail("schema-mutated", fmt.Sprintf("schema %d: %q changed the mapper's tag set", si, text))
+				mapper = newC12mapper(sc)
 			}
 			det := true
 			for _, o := range outs[1:] {
@@ -179,6 +212,21 @@ func TestZZBoundedC12(t *testing.T) {
 				}
 				sort.Strings(cols)
 				want = "SELECT " + strings.Join(cols, ", ") + " FROM " + from
+			case 15: // an anchored alternation: still the matching columns once each, sorted by name
+				for _, k := range []string{"host", "v", "w"} {
+					if v, have := fieldT[k]; have {
+						cols = append(cols, k+"::"+v.String())
+					}
+					if tagSet[k] {
+						cols = append(cols, k+"::tag")
+					}
+				}
+				sort.Strings(cols)
+				want = "SELECT " + strings.Join(cols, ", ") + " FROM " + from
+			case 16: // a subquery column without a known type is still a column of the subquery
+				if !strings.HasPrefix(outs[0], "error") && !strings.Contains(strings.SplitN(outs[0], " FROM ", 2)[0], "nosuch") {
+					fail("untyped-subquery-column-lost", fmt.Sprintf("schema %d: %q -> %q", si, text, outs[0]))
+				}
 			case 14: // the GROUP BY keys of a subquery are the tag keys an outer GROUP BY * expands to, selected or not
 				if !strings.HasPrefix(outs[0], "error") && !strings.HasSuffix(outs[0], " GROUP BY host, region") {
 					fail("subquery-dimensions-lost", fmt.Sprintf("schema %d: %q -> %q", si, text, outs[0]))
